@@ -7,6 +7,7 @@
 From Coq Require Import List Arith Bool Permutation ZArith Reals Lia Lra.
 From Flocq Require Import Core BinarySingleNaN.
 From MPSV Require Import Cluster.ClusterModel Cluster.ClusterProps Cluster.ClusterSpec Cluster.ClusterOverride Cluster.Touch Cluster.TouchFlocq.
+From MPSV Require Import Cluster.ClusterOps Cluster.ClusterOpsProps.
 From MPSV Require Import Cluster.FtouchModel Cluster.FtouchSpec Cluster.FtouchReal Cluster.FtouchLink.
 Import ListNotations.
 Local Open Scope nat_scope.
@@ -302,6 +303,48 @@ Theorem C07_ftouch_subnormal_refuted :
     ftouch_b64 n ri rj xi yi xj yj = true.
 Proof. exact ftouch_subnormal_refuted. Qed.
 Print Assumptions C07_ftouch_subnormal_refuted.
+
+(* ---------------------------------------------------------------- cluster.c list operations
+   ClusterOps.v: insert/remove root, insert/pop/remove cluster, the detach step (body of the disabled loop of
+   mps_clusterization_detach_clusters; the function itself is the identity), reassemble, reset as list functions with the
+   hand-maintained counters; run from the empty state against the real structures state by state (bin/clops vs
+   harness/c07_ops.c under ASan/UBSan).  wf: clusterization->n = number of items, every cluster->n = number of its roots
+   (clusters in the clusterization, free-standing and popped ones), item handles pairwise distinct and below the counter. *)
+Theorem C07_ops_counters_invariant : forall ops s, run ops init = Some s -> wf s.
+Proof. intros ops s H. exact (run_wf ops init s wf_init H). Qed.
+Print Assumptions C07_ops_counters_invariant.
+
+Theorem C07_ops_step_preserves : forall o s s', wf s -> step o s = Some s' -> wf s'.
+Proof. exact step_wf. Qed.
+Print Assumptions C07_ops_step_preserves.
+
+(* the detach step moves one root into a new singleton item: the multiset of roots in the clusterization is kept *)
+Theorem C07_ops_detach_step_multiset : forall hi hr s s', wf s -> detach_step hi hr s = Some s' ->
+  Permutation (roots_of (items s')) (roots_of (items s)) /\
+  (Z.of_nat (length (items s')) = Z.of_nat (length (items s)) + 1)%Z.
+Proof. exact detach_step_multiset. Qed.
+Print Assumptions C07_ops_detach_step_multiset.
+
+(* after mps_clusterization_reassemble_clusters no item is marked detached (and the counters are still exact).
+   PARTIAL for reassemble: that the multiset of roots is kept (when every detached cluster is a singleton detached from a
+   cluster that stays) is checked state by state on the real code, not proved; the faithful model LOSES roots otherwise
+   (only first->k of a detached cluster is re-inserted), which the real detach loop never sets up. *)
+Theorem C07_ops_reassemble_no_detached : forall s s', wf s -> reassemble s = Some s' ->
+  wf s' /\ forall it, In it (items s') -> idet it = None.
+Proof. exact reassemble_no_detached. Qed.
+Print Assumptions C07_ops_reassemble_no_detached.
+
+Example C07_ex_ops :
+  (* reset to 4 roots, detach roots 1 and 2, (disabled) detach_clusters, reassemble: one cluster again, counters exact *)
+  option_map (fun s => (zn s, map (fun it => (ih it, idet it, cn (icl it), map rk (croots (icl it)))) (items s)))
+    (run [OpReset 4; OpDetachStep 4 1; OpDetachStep 4 2] init)
+  = Some (3%Z, [(8, Some 4, 1%Z, [2]); (6, Some 4, 1%Z, [1]); (4, None, 2%Z, [3; 0])]) /\
+  option_map (fun s => (zn s, map (fun it => (ih it, idet it, cn (icl it), map rk (croots (icl it)))) (items s)))
+    (run [OpReset 4; OpDetachStep 4 1; OpDetachStep 4 2; OpDetachAll; OpReassemble] init)
+  = Some (1%Z, [(4, None, 4%Z, [1; 2; 3; 0])]) /\
+  (* a dangling handle is a None of the model *)
+  run [OpReset 2; OpRemove 2; OpInsertRoot (TItem 2) 0] init = None.
+Proof. vm_compute. repeat split; reflexivity. Qed.
 
 (* ---------------------------------------------------------------- non-vacuity *)
 (* chain 0-1-2 (0 and 2 do not touch), 3 isolated, all in one old cluster listed 0,2,1,3:
